@@ -16,7 +16,7 @@ import c04
 import rel
 from common import Check, harness, seed
 
-FEATS = '{"type","enum","allof","allofmsg","method","url","rpc","nested"}'
+FEATS = '{"type","enum","allof","allofmsg","method","url","rpc","nested","skey"}'
 
 
 def schema_projection(cat):
@@ -71,7 +71,7 @@ def main(tier):
         docs += c04.gen_docs(chk, n, mb, seed() * 100 + 20 + i, features=FEATS, workers=8 if thorough else 4)
     # dense type graphs (no interactions): chains, nested objects with their own allOf, shared bases
     for i, (n, mb) in enumerate([(20000, 5), (10000, 6)] if thorough else [(2500, 5)]):
-        docs += c04.gen_docs(chk, n, mb, seed() * 100 + 25 + i, features='{"type","enum","allof","nested"}', workers=8 if thorough else 4)
+        docs += c04.gen_docs(chk, n, mb, seed() * 100 + 25 + i, features='{"type","enum","allof","nested","skey"}', workers=8 if thorough else 4)
     cases, meta, rej = [], {}, {}
     withallof = 0
     for n, m in enumerate(docs):
